@@ -328,6 +328,22 @@ func (g *jsonGen) integer() any {
 	return n
 }
 
+func (g *jsonGen) integerNonNeg() any {
+	for {
+		v := g.integer()
+		switch n := v.(type) {
+		case int:
+			if n >= 0 {
+				return n
+			}
+		case *big.Int:
+			if n.Sign() >= 0 {
+				return n
+			}
+		}
+	}
+}
+
 func (g *jsonGen) leaf() any {
 	if g.strOnly {
 		return g.str()
